@@ -574,6 +574,12 @@ func randString(rng *rand.Rand, mode genMode) string {
 		return strings.Repeat("Z", 300) + "é世界"
 	}
 	n := 1 + rng.Intn(12)
+	if rng.Intn(6) == 0 {
+		// lengths around the steps of the length prefix (127/128, 16383/16384) and of real-world fields (a 20-byte and a
+		// 32-byte bech32 address, a 64-character hash): mixed with short neighbours, the running size of a message and
+		// the size of one field need different numbers of prefix bytes
+		n = pick(rng, 45, 59, 64, 64, 127, 128, 129, 200, 200, 16383, 16384)
+	}
 	b := make([]byte, n)
 	for i := range b {
 		b[i] = "abcdefghijklmnopqrstuvwxyz0123456789-/"[rng.Intn(38)]
